@@ -74,6 +74,19 @@ KINDS = {
     "block-cr-inside": " /* a\r*/ ",
     "block-ls-inside": " /* a\u2028b\x85c\x0cd */ ",
 }
+# white space *inside* the two-word keywords (`not in`, `else if` are single tokens whose inner white space is free)
+INNER_WS = ["  ", "\t", "\n", " \n\t ", "\r\n", "   \t"]
+
+
+def inner_whitespace_variants(slices):
+    """texts in which the blank inside one two-word keyword is written differently; yields (index, replacement, text)"""
+    for i, tok in enumerate(slices):
+        words = tok.split()
+        if len(words) == 2 and words[0] in ("not", "else"):
+            for ws in INNER_WS:
+                yield i, ws, " ".join(slices[:i] + [words[0] + ws + words[1]] + slices[i + 1:])
+
+
 COMMENT_KINDS = [k for k, v in KINDS.items() if "/" in v]
 WS_KINDS = [k for k in KINDS if k not in COMMENT_KINDS]
 
